@@ -282,7 +282,21 @@ def judge(rec: dict, before: dict, after: dict, ledger: dict, sent: dict,
         a = {m[0]: m for m in after['boxes'].get(name, [])}
         for uid, (_, tok, flags, _) in b.items():
             if uid not in a:
-                continue        # being removed by the in-flight command
+                # being removed by the in-flight command (EXPUNGE, MOVE): it
+                # may be gone or still here, but not here under another UID
+                # (judged only when the token is unambiguous - COPY makes
+                # duplicates - and the command does not itself put the
+                # message back into this mailbox, as a MOVE within it does)
+                if same_validity and uid not in got and \
+                        sum(1 for m in b.values() if m[1] == tok) == 1 and \
+                        not any(m[1] == tok for m in a.values()):
+                    moved = [u for u, (t, _) in got.items() if t == tok]
+                    if len(moved) == 1:
+                        return 'uid-reassigned', '%s: message token %r of ' \
+                            '%r was acknowledged as UID %d and is served ' \
+                            'as UID %s after the restart' % (
+                                what, tok, name, uid, moved)
+                continue
             if a[uid][1] != tok:
                 continue
             if same_validity:
